@@ -19,6 +19,9 @@ BOUNDARY = "\u0000\u007f\u0080߿ࠀ퟿￿\U00010000\U0010ffff"
 TEXTS = ["A", "AB\n", "\n", "\n\n\n", "a\n\nb", "no final newline", "with final newline\n", "\r\n\r\n", BOUNDARY, BOUNDARY + "\n" + BOUNDARY,
          "\u0000", "\u0000\n\u0000", "한글 🙂 é ß\n둘째 줄\n", "x" * 3000 + "\n", "\n".join(str(i) for i in range(200)) + "\n",
          "\U0010ffff" * 50, "퟿\n", "tab\there\n", "\u0085   \n",
+         # characters that text tools strip, merge or transform, at the start / end of lines and alone on a line
+         "\ufeffabc\n\ufeff\n", "\ufeff", "a\ufeffb\n", "  lead and trail \t\n", "e\u0301\n\u1112\u1167\u11bc\n", "\u200b\n\u200d", "\x1b[0m\n",
+         "\x7f\x08\n", "\u2028\u2029\n", "\u00a0\n", "A\r", "\rB\n", "\n\r\n\r", "İi\n", "ß\n", "\ufffe\uffff\n", "\x1a\n", "\x04",
          "é" * 40000 + "\n", "a" * 65535 + "é\n", "a" * 65534 + "🙂b\n", "🙂" * 20000, "한" * 30000 + "\n" + "x" * 70000]
 
 
@@ -74,7 +77,8 @@ def run(prop, tier, seed):
             exp = t[:k] + NAN_TEXT * max(0, k - n)
             jobs.append(("copy%s" % ("=" if k == n else "<" if k < n else ">"), copy_n(k), t, exp))
     if quick:
-        jobs = jobs[:80]
+        # every text through the copy loop, and a third of the fixed-count copies
+        jobs = [j for k, j in enumerate(jobs) if j[0] == "cat" or k % 3 == 0]
     jobs += long_jobs
     # compiled executables: one per distinct program and level
     progs = sorted(set(p for _, p, _, _ in jobs))
